@@ -22,6 +22,9 @@ def engine_for(prop):
     import engine_cfg
     if prop in engine_cfg.CONFIG:
         return engine_cfg
+    import engine_c14
+    if prop in engine_c14.CONFIG:
+        return engine_c14
     raise SystemExit('no check registered for ' + prop)
 
 
